@@ -259,38 +259,43 @@ def P15(m, R):
 
 
 # ----------------------------------------------------------------------------------------------------------------------
-@rule('P14', 'find-relocate: with a separator given, piece offsets in _split are not re-derived by find() of the piece text', floor=1)
+@rule('P14', 'piece-offsets: symbolic interpretation of the offset loops of _split / splitlines -- piece k is the slice [c_k, c_k + len(piece_k)) with '
+             'c_(k+1) = c_k + len(piece_k) + len(sep); with a separator given no offset is re-derived by find()', floor=3)
 def P14(m, R):
-    ro = m.roles
-    f = m.fn('AnsiString._split')
-    sep = f.own_params()[0]
-    cfg = CFG(f.node, f.body)
-    finds = []
-    for n in f.walk():
-        if isinstance(n, ast.Call) and call_name(n) in ('find', 'index', 'rfind', 'rindex') and isinstance(n.func, ast.Attribute) and \
-                norm(n.func.value) == '%s.%s' % (f.self_name, ro.TEXT):
-            lp = next((p for p in _parents(n) if isinstance(p, ast.For)), None)
-            if lp is not None and n.args and norm(n.args[0]) == norm(lp.target):
-                finds.append((n, lp))
-    if not finds:
-        R.ok(f, f.node, 'no offset is re-derived by searching the piece text', construct='_split relocate')
-        return
-    for call, lp in finds:
-        stn = call
-        while not isinstance(stn, ast.stmt):
-            stn = stn._parent
-        node = cfg.node_of(stn)
-        head = cfg.loop_of[lp]
-        env0 = {'%s is None' % sep: False, '%s is not None' % sep: True, sep: True}
-        ps = paths(cfg, head, lambda nd: nd is node, env0=env0, max_visits=1)
-        bad = [p for p, e in ps if p[-1] is node]
-        if bad:
-            R.viol(f, call, 'with a separator given the piece offset is taken from %s: a piece whose text also occurs earlier (inside a '
-                            'separator occurrence, or as an empty piece) is located at the wrong offset and gets the wrong characters\' style' % short(call),
-                   construct='_split relocate', witness=['under %s is not None:' % sep] + _path_text(bad[0]))
-        else:
-            R.ok(f, call, 'the find() relocation is reached only when %s is None (pieces are separated by whitespace that cannot occur in a piece)' % sep,
-                 construct='_split relocate')
+    from .pieces import interpret
+    from .P_more import Sym
+    from ..finite import Undecided
+    for name, scenarios in (('_split', (('sep given', True, None), ('sep None', False, None))),
+                            ('splitlines', (('keepends=False', False, False), ('keepends=True', False, True)))):
+        f = m.fn('AnsiString.' + name)
+        for label, sep_given, keep in scenarios:
+            cons = '%s offsets [%s]' % (name, label)
+            try:
+                res = interpret(m, f, sep_given, {f.own_params()[0]: keep} if keep is not None else None)
+            except Undecided as e:
+                R.undecided(f, f.node, 'offset loop not interpreted: %s' % e, construct=cons)
+                continue
+            (a1, b1), (a2, b2) = res['slices']
+            L1, L2, SEP = Sym({'L1': 1}), Sym({'L2': 1}), Sym({'SEP': 1})
+            G1, G2 = Sym({'G1': 1}), Sym({'G2': 1})
+            problems = []
+            if name == '_split' and sep_given:
+                if res['used_find']:
+                    call = res['used_find'][0][0]
+                    R.viol(f, call, 'with a separator given the piece offset is taken from %s: a piece whose text also occurs earlier (inside a separator occurrence, '
+                                    'or as an empty piece) is located at the wrong offset and gets the wrong characters\' style' % short(call), construct=cons)
+                    continue
+                want = [(Sym(c=0), L1), (L1 + SEP, L1 + SEP + L2)]
+            else:
+                want = [(G1, G1 + L1), (G1 + L1 + G2, G1 + L1 + G2 + L2)]
+            got = [(a1, b1), (a2, b2)]
+            if keep is True and got == [(Sym(c=0), L1), (L1, L1 + L2)]:
+                got = want      # with the line breaks kept the pieces are contiguous: no gap to look for
+            if got != want:
+                problems.append('pieces 1, 2 are sliced at [%r:%r], [%r:%r]; expected [%r:%r], [%r:%r] (L = piece length, SEP = separator length, G = gap found by find())'
+                                % (a1, b1, a2, b2, want[0][0], want[0][1], want[1][0], want[1][1]))
+            R.check(not problems, f, res['loop'], 'piece k is self[c_k : c_k + len(piece_k)], c_(k+1) = c_k + len(piece_k)%s' % (' + len(sep)' if sep_given else ' (+ gap)'),
+                    '; '.join(problems), construct=cons)
 
 
 # ----------------------------------------------------------------------------------------------------------------------
